@@ -46,6 +46,21 @@ namespace ip {
 		close(ec);
 	}
 
+	void tcp::acceptor::open(tcp protocol, boost::system::error_code& ec)
+	{
+		// (re-)opening the acceptor closes it first. It is not listening until
+		// listen() is called again
+		m_queue_size_limit = -1;
+		socket::open(protocol, ec);
+	}
+
+	void tcp::acceptor::open(tcp protocol)
+	{
+		boost::system::error_code ec;
+		open(protocol, ec);
+		if (ec) throw boost::system::system_error(ec);
+	}
+
 	void tcp::acceptor::listen(int qs)
 	{
 		boost::system::error_code ec;
